@@ -266,7 +266,8 @@ EX_GAUGE = EX([
     ("exec_fallbacks_in_flight_le_limit", "fallbacks_in_flight_le_limit", "never more callers inside a fallback function than the fallback limit"),
     ("exec_negative_fallback_limit", "negative_fallback_limit_refuses_nobody", "a negative fallback limit refuses nobody")])
 EX_KILL = EX([("exec_disabled_is_pass_through", "disabled_is_pass_through", "the kill switch, every schedule: with Disabled on, Execute is the run function called directly — its answer, error or panic straight to the caller, exactly one direct call, no admission, no run event, no fallback, no fallback event, and both gauges stay at zero whatever everybody else is doing")])
-EX_FBVIEW = [(("exec_fb_phase_is_gauge_step", "CM.Props.ExecFbView.fb_phase_is_gauge_step", "the fallback phase of the whole-Execute model IS the bulkhead thread the K6 tie of `fallback` is about: each of its steps is `Gauge.step` on (gauge, limit) from the corresponding local state, or an event delivery that leaves the bulkhead alone"), "Props.ExecFbView")]
+EX_FBVIEW = [(("exec_fb_phase_is_gauge_step", "CM.Props.ExecFbView.fb_phase_is_gauge_step", "the fallback phase of the whole-Execute model IS the bulkhead thread the K6 tie of `fallback` is about: each of its steps is `Gauge.step` on (gauge, limit) from the corresponding local state, or an event delivery that leaves the bulkhead alone"), "Props.ExecFbView"),
+             (("exec_run_phase_is_run_step", "CM.Props.ExecFbView.run_phase_is_run_step", "inside `c.run` a thread of the whole-Execute model takes exactly `Run.step` — the step function the K6 tie of `run` is about"), "Props.ExecFbView")]
 EX_LIVE = EX([("exec_never_deadlocks", "never_deadlocks", "whole Executes racing transitions and reconfigurations never deadlock")])
 RD_VIEW = [(("dyn_call_thread_view", "CM.Props.RunDynView.call_thread_view", "every schedule of calls racing operators, seen from one call thread, is a solo run of the static model's thread against some oracle — the runs the K6 ties of `run` / `IsOpen` / `openCircuit` / `close` quantify over"), "Props.RunDynView")]
 
